@@ -13,17 +13,7 @@ REPO = os.environ.get('VERIF_REPO', '/repo')
 ROOT = os.path.dirname(os.path.dirname(os.path.abspath(__file__)))
 
 
-def load_contracts():
-    reg = {}
-    d = os.path.join(ROOT, 'contracts')
-    for fn in sorted(os.listdir(d)):
-        if fn.endswith('.py') and not fn.startswith('_'):
-            m = importlib.import_module('contracts.' + fn[:-3])
-            for name, c in getattr(m, 'CONTRACTS', {}).items():
-                c = dict(c)
-                c['name'] = name
-                reg[name] = c
-    return reg
+from .contracts_io import load_contracts
 
 
 def find_function(qual):
@@ -96,7 +86,13 @@ def run_contract(task, budget_s=120):
                'nhyps': r.get('nhyps'), 'line': ob.line}
         if r['status'] == 'refuted':
             rec['model'] = r.get('model')
-            rec['msg'] = 'solver found a counter-model for %s (line %s)' % (nm, ob.line)
+            rec['function'] = name
+            rec['msg'] = 'solver found a counter-model for %s of %s (source line %s)' % (nm, name, ob.line)
+            if r.get('z3model') is not None and c.get('kind') != 'lemma':
+                try:
+                    rec['inputs'] = inputs_from_model(r['z3model'], gen.entry_env, c)
+                except Exception as e:        # the model is then only reported verbatim
+                    rec['inputs_error'] = str(e)
         if r['status'] == 'undecided':
             rec['why'] = r.get('why')
         out['obligations'].append(rec)
@@ -106,4 +102,42 @@ def run_contract(task, budget_s=120):
         r = solve.discharge(can, timeout_ms=5000, rounds=1)
         out['canary_proved'] = (r['status'] == 'proved')
         out['canary'] = r['status']
+    return out
+
+
+def inputs_from_model(m, entry_env, c, maxlen=40):
+    """function arguments of the counter-model as JSON-able values (reals as 'p/q' strings)"""
+    def val(e):
+        v = m.eval(e, model_completion=True)
+        if z3.is_int_value(v):
+            return v.as_long()
+        if z3.is_rational_value(v):
+            return '%d/%d' % (v.numerator_as_long(), v.denominator_as_long())
+        if z3.is_true(v):
+            return True
+        if z3.is_false(v):
+            return False
+        if z3.is_algebraic_value(v):
+            a = v.approx(20)
+            return '%d/%d' % (a.numerator_as_long(), a.denominator_as_long())
+        raise ValueError('no concrete value for %s' % e)
+    out = {}
+    for a, t in c['args'].items():
+        x = entry_env.get(a)
+        if isinstance(x, core.SList):
+            n = val(x.ln)
+            if n > maxlen:
+                raise ValueError('list %s too long in the model (%d)' % (a, n))
+            if x.nested():
+                rows = []
+                for i in range(n):
+                    rl = val(z3.Select(x.ilen, i))
+                    if rl > maxlen:
+                        raise ValueError('row too long')
+                    rows.append({'list': [val(z3.Select(z3.Select(x.arr, i), j)) for j in range(rl)]})
+                out[a] = {'list': rows}
+            else:
+                out[a] = {'list': [val(z3.Select(x.arr, i)) for i in range(n)]}
+        elif z3.is_expr(x):
+            out[a] = val(x)
     return out
